@@ -249,7 +249,11 @@ pub(super) fn anchor_split(
         let mut new_name = old_name;
         if let Some(new) = &mut new_name {
             if used_new_names.contains(new) {
-                *new = ctx.col_name.gen();
+                // regenerate until unused: a user column may be spelled like a
+                // generated name (`_expr_0`)
+                while used_new_names.contains(new) {
+                    *new = ctx.col_name.gen();
+                }
                 ctx.column_names.insert(*old_cid, new.clone());
             }
 
